@@ -507,9 +507,41 @@ def cache_src_rule(ctx):
     return rs
 
 
+def cache_copy_rule(ctx):
+    """CACHE-COPY.  The cache belongs to one transform.  A custom copy protocol of the linear family
+    (`__deepcopy__`, `__copy__`, `__getstate__` / `__setstate__`, `__reduce__`, a `clone()` built on them) that
+    copies parameters and buffers but takes the remaining attributes as they are leaves the *same* LinearCache
+    object in the original and in the copy: whichever of the two fills it imposes its weight, inverse and
+    log-det on the other.  Decided per override: the method gives the copy a cache of its own -- an assignment
+    to `<copy>.cache` (a fresh LinearCache() or a deep copy), or a plain `copy.deepcopy` of the whole `__dict__`."""
+    p = ctx.p
+    base, subs = linear_classes(p)
+    res = RuleResult("CACHE-COPY", "no copy protocol override of the linear family lets the copy share the original's LinearCache object")
+    n = 0
+    for cls in [base] + list(subs):
+        for mname in ("__deepcopy__", "__copy__", "__getstate__", "__setstate__", "__reduce__", "__reduce_ex__"):
+            fi = cls.methods.get(mname)
+            if fi is None:
+                continue
+            n += 1
+            own_cache = any(isinstance(a, ast.Assign) and any(isinstance(t, ast.Attribute) and t.attr == "cache" for t in a.targets) for a in ast.walk(fi.node))
+            own_cache = own_cache or any(isinstance(a, ast.Assign) and any(isinstance(t, ast.Subscript) and isinstance(t.slice, ast.Constant) and t.slice.value == "cache" for t in a.targets) for a in ast.walk(fi.node))
+            whole = any(isinstance(c, ast.Call) and norm_text(c.func) in ("copy.deepcopy", "deepcopy") and c.args and norm_text(c.args[0]) in ("self.__dict__", "vars(self)") for c in ast.walk(fi.node))
+            deleg = any(isinstance(c, ast.Call) and isinstance(c.func, ast.Attribute) and c.func.attr == mname and isinstance(c.func.value, ast.Call) and norm_text(c.func.value.func) == "super" for c in ast.walk(fi.node))
+            shallow = any(isinstance(c, ast.Call) and (norm_text(c.func) in ("copy.copy", "copy") or (isinstance(c.func, ast.Attribute) and c.func.attr in ("copy", "update") and "__dict__" in norm_text(c.func.value))) for c in ast.walk(fi.node))
+            if own_cache or whole or (deleg and not shallow):
+                res.ok("%s.%s gives the copy its own cache" % (cls.name, mname))
+            elif shallow or mname in ("__deepcopy__", "__copy__"):
+                res.fail(Finding("CACHE-COPY", fi.module, fi.qualname, fi.node, "%s.%s copies the module without giving the copy a cache of its own (no assignment to `.cache`, no deep copy of the whole __dict__): the original and every copy hold one LinearCache object, so after their parameters diverge whichever instance fills the cache first decides the weight, inverse and log-det the other one uses" % (cls.name, mname), construct="cache ownership in %s.%s" % (cls.name, mname)))
+            else:
+                res.undecide("%s.%s" % (cls.name, mname), "cannot tell what becomes of the cache in this copy protocol override")
+    res.ok("%d copy-protocol overrides in the linear family" % n, nontrivial=False)
+    return res
+
+
 register(
     "C10",
-    [typestate_rule, cache_map_rule, cache_use_rule, cache_clear_rule, cache_graph_rule, cache_src_rule],
+    [typestate_rule, cache_map_rule, cache_use_rule, cache_clear_rule, cache_graph_rule, cache_src_rule, cache_copy_rule],
     "Typestate analysis of Linear and every subclass (NaiveLinear, LULinear, QRLinear, SVDLinear, OneByOneConvolution): "
     "the transfer function of train/eval/use_cache/forward/inverse/_apply/_load_from_state_dict is derived on every run by "
     "executing the method bodies found in /repo over the abstract store training x using_cache x {None,Fresh,Stale}^fields "
